@@ -30,6 +30,11 @@ type B struct {
 type C struct {
 	ID int64 `graphql:"id,key"`
 }
+// D is held by value and is not comparable (it has a slice field).
+type D struct {
+	ID   int64 `graphql:"id,key"`
+	Tags []string
+}
 type U struct {
 	schemabuilder.Union
 	*A
@@ -62,6 +67,8 @@ type world struct {
 	rootUs []ref
 	rootU1 ref
 	rootBs []int
+	ds     []D
+	rootDs []int
 
 	// fault plan (C16): failing (field, object id) instances
 	fail map[string]failure
@@ -147,6 +154,14 @@ func newWorld(c *runner.Ctx) *world {
 	}
 	w.rootU1 = anyRef("rootU1")
 	w.rootBs = list(w.nB, "rootBs", false)
+	for i, n := 0, 1+pick(c, 4, "nD"); i < n; i++ {
+		d := D{ID: int64(400 + i)}
+		for j, k := 0, pick(c, 3, "d-tags"); j < k; j++ {
+			d.Tags = append(d.Tags, fmt.Sprintf("t%d", pick(c, 3, "d-tag")))
+		}
+		w.ds = append(w.ds, d)
+	}
+	w.rootDs = list(len(w.ds), "rootDs", false)
 	return w
 }
 
@@ -227,6 +242,9 @@ func (w *world) labelVal(id int64, p *string) string {
 		return fmt.Sprintf("label-%d-v%d", id, v)
 	}
 	return fmt.Sprintf("label-%d-%s-v%d", id, *p, v)
+}
+func (w *world) vVal(id int64) int64 {
+	return id*13 + 1 + 100000*int64(w.ver[fmt.Sprintf("D.v/%d", id)])
 }
 func (w *world) wVal(id int64) int64 {
 	return id*17 + 3 + 100000*int64(w.ver[fmt.Sprintf("C.w/%d", id)])
@@ -315,6 +333,15 @@ func (w *world) buildSchemaWithMutation() (*graphql.Schema, error) { return w.bu
 // build registers every logical field in the mode the run drew for it.
 func (w *world) build(withMutation bool) (*graphql.Schema, error) {
 	s := schemabuilder.NewSchema()
+	s.Mutation().FieldFunc("touchA", func(ctx context.Context, args struct{ I int64 }) (*A, error) {
+		if err := w.point(ctx, "Mutation.touchA", args.I); err != nil {
+			return nil, err
+		}
+		if args.I < 0 || int(args.I) >= w.nA {
+			return nil, nil
+		}
+		return w.as[args.I], nil
+	})
 	if withMutation {
 		s.Mutation().FieldFunc("bump", func(ctx context.Context) (string, error) {
 			simrt.Yield()
@@ -378,6 +405,23 @@ func (w *world) build(withMutation bool) (*graphql.Schema, error) {
 		return out, nil
 	})
 	q.FieldFunc("n", func() int64 { return 42 })
+	q.FieldFunc("ds", func(ctx context.Context) ([]D, error) {
+		if err := w.point(ctx, "Query.ds", 0); err != nil {
+			return nil, err
+		}
+		var out []D
+		for _, i := range w.rootDs {
+			out = append(out, w.ds[i])
+		}
+		return out, nil
+	})
+	od := s.Object("D", D{})
+	w.register(od, "v", func(ctx context.Context, d *D) (int64, error) {
+		if err := w.point(ctx, "D.v", d.ID); err != nil {
+			return 0, err
+		}
+		return w.vVal(d.ID), nil
+	})
 
 	oa := s.Object("A", A{})
 	w.register(oa, "tag", func(ctx context.Context, a *A, args struct{ X int64 }) (string, error) {
@@ -457,4 +501,4 @@ func (w *world) build(withMutation bool) (*graphql.Schema, error) {
 	return s.Build()
 }
 
-var computedFields = []string{"A.tag", "A.score", "A.b", "A.bs", "A.u", "B.a", "B.cs", "B.label", "C.w"}
+var computedFields = []string{"A.tag", "A.score", "A.b", "A.bs", "A.u", "B.a", "B.cs", "B.label", "C.w", "D.v"}
